@@ -457,13 +457,29 @@ def rule_tab_epsfilter(P, N=4, blocks=2):
 # ---------------------------------------------------------------- TAB-ASSOC
 
 
-def _compose_leaves(e):
-    """flatten X._compose(Y[, coarsen=..]) trees into the ordered leaf list and the coarsen flags of steps touching the filter"""
+def _compose_leaves(e, fnode=None, depth=0):
+    """flatten X._compose(Y[, coarsen=..]) trees into the ordered leaf list and the coarsen flags of steps touching the filter;
+    a local that names an intermediate machine (`left = self._augment_epsilon_transitions(0)`) stands for its single definition"""
+    if fnode is not None and isinstance(e, ast.Name) and depth < 6:
+        d = W.single_def(fnode, e.id)
+        if isinstance(d, ast.Call):
+            e = d
     if isinstance(e, ast.Call) and isinstance(e.func, ast.Attribute) and e.func.attr == "_compose":
-        left = _compose_leaves(e.func.value)
-        right = _compose_leaves(e.args[0])
+        lhs, rhs = e.func.value, e.args[0]
+        if fnode is not None:
+            for side in ("lhs", "rhs"):
+                x = lhs if side == "lhs" else rhs
+                if isinstance(x, ast.Name):
+                    d = W.single_def(fnode, x.id)
+                    if isinstance(d, ast.Call):
+                        if side == "lhs":
+                            lhs = d
+                        else:
+                            rhs = d
+        left = _compose_leaves(lhs, fnode, depth + 1)
+        right = _compose_leaves(rhs, fnode, depth + 1)
         co = next((k.value for k in e.keywords if k.arg == "coarsen"), None)
-        step = (e, co, e.func.value, e.args[0])
+        step = (e, co, lhs, rhs)
         return left[0] + right[0], left[1] + right[1] + [step]
     return [e], []
 
@@ -479,7 +495,7 @@ def rule_tab_assoc(P):
     if len(rets) < 1:
         raise AnalysisError("fst.py::FST.__matmul__: composition returns not found")
     for ret in rets:
-        leaves, steps = _compose_leaves(ret.value)
+        leaves, steps = _compose_leaves(ret.value, f.node)
         txt = [norm(x) for x in leaves]
         want = ["self._augment_epsilon_transitions(0)", "epsilon_filter_fst(self.R, self.B)", f"{o}._augment_epsilon_transitions(1)"]
         ok = txt == want
